@@ -27,7 +27,7 @@ NRec == Len(TraceLog)
 
 VARIABLE l
 Parked ==
-  /\ parts = <<>> /\ kind = "none" /\ hist = <<>> /\ src = <<>> /\ loaded = FALSE
+  /\ parts = <<>> /\ kind = "none" /\ hist = <<>> /\ todo = <<>> /\ src = <<>> /\ loaded = FALSE
   /\ merged = EmptyPart /\ memo = {} /\ live = {} /\ epoch = 0
   /\ mobs = [bexc |-> "none", bsrcn |-> TRUE, bsrcs |-> TRUE, steps |-> <<>>]
 TraceInit == l = 1 /\ Parked
@@ -40,10 +40,11 @@ Judge ==
     LET rec == TraceLog[l]
         o   == rec.obs
         m   == Run(rec.parts, rec.kind, rec.history).ob
+        f   == FailSeq(rec.parts, rec.kind, rec.history, o)
     IN PrintT(<<"VERDICT", ToJson(
          [id |-> rec.id,
-          C19 |-> V_C19(rec.parts, rec.kind, rec.history, o),
-          clauses |-> FailSeq(rec.parts, rec.kind, rec.history, o),
+          C19 |-> VerdictOf(rec.parts, rec.kind, rec.history, o, f),
+          clauses |-> f,
           model |-> V_C19(rec.parts, rec.kind, rec.history, m),
           conf |-> ConfWhere(o, m)])>>)
 =============================================================================
